@@ -21,6 +21,8 @@ func main() {
 	workers := flag.Int("workers", 0, "worker processes (default: cores)")
 	list := flag.Bool("list", false, "list registered properties")
 	lone := flag.String("lone", "", "run one execution of this phase alone (internal)")
+	bfs := flag.Bool("bfs", false, "-lone: the execution is a transition of an explicit-state search (internal)")
+	bfsInit := flag.String("bfs-init", "", "-lone -bfs: initial state (internal)")
 	choices := flag.String("choices", "", "choice prefix for -lone")
 	flag.Parse()
 	if t := os.Getenv("VERIF_TIER"); t != "" && *shard < 0 {
@@ -33,7 +35,7 @@ func main() {
 		return
 	}
 	if *lone != "" {
-		os.Exit(engine.RunLoneExecution(*prop, *tier, *lone, *choices))
+		os.Exit(engine.RunLone(*prop, *tier, *lone, *choices, *bfsInit, *bfs))
 	}
 	if *replay != "" {
 		os.Exit(engine.RunReplay(*replay))
